@@ -160,6 +160,10 @@ func failingStatements(w *world, maxM int) []failStmt {
 			}
 		}
 		out = append(out, failStmt{SQL: fmt.Sprintf("UPDATE t4 SET e = '%s'", strings.Repeat("w", 120)), Class: "update/row-limit-on-kth-row", K: k, M: len(t4.Rows)})
+		// the same overflow with the new value taken from another column of the row (refused as a whole on the pinned
+		// tree: SET col = col is not supported; an engine that supports it must still fail it as a whole)
+		out = append(out, failStmt{SQL: "UPDATE t4 SET e = c", Class: "update/set-from-column-row-limit-on-kth-row", K: k, M: len(t4.Rows)},
+			failStmt{SQL: "UPDATE t4 SET e = c, c = 'q'", Class: "update/set-from-column-row-limit-on-kth-row", K: k, M: len(t4.Rows)})
 	}
 	return out
 }
@@ -345,7 +349,10 @@ func runC14(env *lib.Env, rep *lib.Report) {
 		// D16 predicate (input only): the first failing row is not the first row, and the state is observed
 		// before a crash could have thrown the unlogged rows away (a crash without a flush does: then the
 		// state must equal the one before the statement, and a failure is a violation)
-		if _, ok := known["D16-failing-multirow-half-applied"]; ok && f.K >= 2 && obs != 3 {
+		// - and only for the statement shapes the finding lists: a multi-row INSERT of literal rows, an UPDATE that
+		// sets a literal value (any other statement failing half way is a different call site)
+		d16Shape := strings.HasPrefix(f.Class, "insert/") || strings.HasPrefix(f.Class, "insert-collist/") || f.Class == "update/row-limit-on-kth-row"
+		if _, ok := known["D16-failing-multirow-half-applied"]; ok && f.K >= 2 && obs != 3 && d16Shape {
 			knownID = "D16-failing-multirow-half-applied"
 		}
 		switch obs {
